@@ -16,6 +16,8 @@ PROJECTION = "the full ordered site log (cond / bool / await / capture / body / 
 ASSUMPTIONS = ["user callables answer as a function of the site (A-oracle)"]
 
 AW = {"T": 5, "F": 5, "R": 0.3, "BR": 0.3, "CT": 0.5, "CF": 0.5}
+NEIGHBOURS = [{"from": "C18", "limit": 400, "why": "the order of inherited and own contracts on real calls"},
+              {"from": "C17", "limit": 400, "why": "the lists evaluated are those of the class of the instance"}]
 
 
 def cases(tier, rng):
